@@ -160,6 +160,15 @@ def parseStep (st : String) : Option Op :=
   | "R" => (parseReq f).map .req
   | _ => none
 
+/-- `X:<umount path>:<mount fields>`: the harness runs the umount and the mount on two threads; the
+    sequentially equivalent history is the umount followed by the mount -/
+def parseSteps (st : String) : List Op :=
+  let f := splitC st ":"
+  if nth f 0 == "X" then
+    [.umount (pathName (nth f 1)),
+     .mount (parseBk (nth f 3) (nth f 5) (nth f 6)) (pathName (nth f 2)) (parseMap (nth f 4))]
+  else (parseStep st).toList
+
 def parseOpts (kv : List (String × String)) : Opts :=
   let o := (getD kv "o").toList
   let flag (i : Nat) (d : Bool) : Bool := if o.length == 6 then o.getD i '0' == '1' else d
@@ -173,7 +182,7 @@ def parseOpts (kv : List (String × String)) : Opts :=
 def parseCase (line : String) : State × List Op :=
   let kv := tokens line
   let s := State.new (parseOpts kv) (getD kv "rm" == "1")
-  let ops := (splitC (getD kv "ops") ";").filter (fun x => !x.isEmpty) |>.filterMap parseStep
+  let ops := (splitC (getD kv "ops") ";").filter (fun x => !x.isEmpty) |>.flatMap parseSteps
   (s, ops)
 
 def runLine (line : String) : String :=
